@@ -107,6 +107,13 @@ inline Json::Value genTickOps(WorldGen& wg, World& view, const KillOpts& o, std:
     }
     if (P(50)) c->mem_current = pages(wg.prof.maxlog2);
     if (P(30)) c->swap_current = pages(wg.prof.maxlog2);
+    // attributes oomd must re-read every tick: memory.oom.group and the prefer / avoid marks
+    if (wg.prof.oom_group && P(20)) c->oom_group = c->oom_group ? 0 : 1;
+    if (wg.prof.prefs && P(20)) {
+      bool had = false;
+      for (const char* n : {"trusted.oomd_prefer", "trusted.oomd_avoid", "user.oomd_prefer", "user.oomd_avoid"}) had = c->xattrs.erase(n) || had;
+      if (!had || P(50)) c->xattrs[oneOf(std::vector<std::string>{"trusted.oomd_prefer", "trusted.oomd_avoid", "user.oomd_prefer", "user.oomd_avoid"})] = "1";
+    }
     Op op;
     op.op = "set";
     op.cg = *c;
